@@ -74,6 +74,19 @@ def ops_catalogue():
     add("stats-detail-dump", "stats", "detail", "dump")
     add("stats-detail-on", "stats", "detail", "on")
     add("stats-reset", "stats", "reset")
+    # noreply passed explicitly as None (what wrappers that forward an optional argument do)
+    add("incr-noreply-none", "incr", "num", 5, noreply=None)
+    add("decr-noreply-none", "decr", "num", 3, noreply=None)
+    add("delete-noreply-none", "delete", "h1", noreply=None)
+    add("touch-noreply-none", "touch", "h1", 30, noreply=None)
+    add("set-noreply-none", "set", "k-set", b"v", noreply=None)
+    add("delete_many-noreply-none", "delete_many", ["h1", "m1"], noreply=None)
+    add("flush_all-noreply-none", "flush_all", noreply=None)
+    # the str and the bytes spelling of one key in the same batch (two items, one wire key)
+    add("set_many-str-and-bytes-reply", "set_many", {"sm1": b"as-str", b"sm1": b"as-bytes"}, noreply=False)
+    add("set_many-str-and-bytes-nr", "set_many", {"sm1": b"as-str", b"sm1": b"as-bytes", "sm2": b"x"}, noreply=True)
+    add("get_many-str-and-bytes", "get_many", ["h1", b"h1", "h2"])
+    add("delete_many-str-and-bytes", "delete_many", ["h1", b"h1"], noreply=False)
     add("getitem-hit", "__getitem__", "h1")
     add("getitem-miss", "__getitem__", "m1")
     add("setitem", "__setitem__", "k-item", b"item-value")
